@@ -1,25 +1,45 @@
 import EqsigVerif.Model.Frequency
 import EqsigVerif.Gen.KoWindow
+import Mathlib.Tactic.Ring
+import Mathlib.Tactic.FieldSimp
+import Mathlib.Tactic.SplitIfs
+import Mathlib.Data.Real.Basic
 /-!
 # C07.c — translator tie: the Konno–Ohmachi window expression REGENERATED from `eqsig/fns/frequency.py`
 (`band * log10(f / fc)`, `(sin(x)/x) ** 4`, `np.where(x == 0, 1, ·)`; in `calc_smooth_fa_spectrum` and in
-`calc_smoothing_matrix_konno_1998`) is the hand model's `koWindow`.
+`calc_smoothing_matrix_konno_1998`) is the hand model's `koWindow`, as a real function for arbitrary `sin`, `log10`
+(proved semantically: first `rfl`, otherwise case analysis + field algebra, so `sin(x)**4 / x**4` would be accepted while
+another exponent, argument or replacement value is not).
 -/
 namespace EqsigVerif.Props.C07
 open EqsigVerif
 
-variable {α : Type} [Add α] [Mul α] [Div α] [Neg α] [OfNat α 0] [OfNat α 1] [LT α] [DecidableLT α] [BEq α]
+macro "window_bridge" : tactic =>
+  `(tactic| first
+    | rfl
+    | (simp only [Gen.KoWindow.koWindowDirect, Gen.KoWindow.koWindowMatrix, Gen.KoWindow.koArgDirect, Gen.KoWindow.koArgMatrix,
+         Gen.KoWindow.koRawDirect, Gen.KoWindow.koRawMatrix, Model.Frequency.koWindow, Model.Frequency.koArg,
+         Model.Frequency.koRaw, beq_iff_eq] <;>
+       split_ifs <;> first
+        | rfl
+        | (ring_nf; done)
+        | (field_simp; done)
+        | (field_simp <;> ring_nf <;> done)
+        | (simp_all; done)))
 
 /-- direct form (`calc_smooth_fa_spectrum`) -/
-theorem gen_ko_window_direct (sin log10 : α → α) (band f fc : α) :
-    Gen.KoWindow.koWindowDirect sin log10 band f fc = Model.Frequency.koWindow sin log10 band f fc := rfl
+theorem gen_ko_window_direct (sin log10 : ℝ → ℝ) (band f fc : ℝ) :
+    Gen.KoWindow.koWindowDirect sin log10 band f fc = Model.Frequency.koWindow sin log10 band f fc := by
+  window_bridge
 
 /-- matrix form (`calc_smoothing_matrix_konno_1998`) -/
-theorem gen_ko_window_matrix (sin log10 : α → α) (band f fc : α) :
-    Gen.KoWindow.koWindowMatrix sin log10 band f fc = Model.Frequency.koWindow sin log10 band f fc := rfl
+theorem gen_ko_window_matrix (sin log10 : ℝ → ℝ) (band f fc : ℝ) :
+    Gen.KoWindow.koWindowMatrix sin log10 band f fc = Model.Frequency.koWindow sin log10 band f fc := by
+  window_bridge
 
 /-- the two functions use the same window -/
-theorem gen_ko_windows_agree (sin log10 : α → α) (band f fc : α) :
-    Gen.KoWindow.koWindowDirect sin log10 band f fc = Gen.KoWindow.koWindowMatrix sin log10 band f fc := rfl
+theorem gen_ko_windows_agree (sin log10 : ℝ → ℝ) (band f fc : ℝ) :
+    Gen.KoWindow.koWindowDirect sin log10 band f fc = Gen.KoWindow.koWindowMatrix sin log10 band f fc := by
+  rw [gen_ko_window_direct, gen_ko_window_matrix]
 
 end EqsigVerif.Props.C07
